@@ -7,6 +7,7 @@ package main
 
 import (
 	"fmt"
+	"go/ast"
 	"strconv"
 	"strings"
 	"time"
@@ -165,6 +166,32 @@ func convStream(c *Ctx) {
 			fl = []string{}
 		}
 		c.Emit(J{"op": "conv.fields", "c": cm}, J{"fields": fl}, "fields", fmt.Sprintf("nf=%d", len(fl)))
+	}
+	// (*ast.CommentGroup).Text against Parse/DocText.lean: groups of raw comments of both styles, directives, blank and
+	// blank-ended lines, tabs, CR, non-ASCII
+	lineP := []string{"", " ", "Build does x.", " Build does x.  ", "  indented", "\ttabbed\t", "go:generate stringer", "go:build mage", "nolint:x", "line 12", "export Foo", "extern bar",
+		"a:b", "A:b", "a:B", "a: b", ":x", "x:", "ünï:c", "a1:2 rest", "Deprecated: old.", " trailing\r", "é — dash", "   ", "\t", "TODO(x): y", "http://example.com"}
+	for i := 0; i < c.N/6+20; i++ {
+		var raw []string
+		var list []*ast.Comment
+		for k := 0; k < r.Intn(6); k++ {
+			var t string
+			if r.Chance(1, 6) {
+				t = "/*" + lineP[r.Intn(len(lineP))]
+				for m := 0; m < r.Intn(3); m++ {
+					t += "\n" + lineP[r.Intn(len(lineP))]
+				}
+				t += "*/"
+			} else {
+				t = "//" + lineP[r.Intn(len(lineP))]
+			}
+			raw = append(raw, t)
+			list = append(list, &ast.Comment{Text: t})
+		}
+		if raw == nil {
+			raw = []string{}
+		}
+		c.Emit(J{"op": "conv.doctext", "comments": raw}, J{"text": (&ast.CommentGroup{List: list}).Text()}, "doctext", fmt.Sprintf("n=%d", len(raw)))
 	}
 	// time.Duration.String against Strconv.durString, and the round trip mage relies on (-t d travels as MAGEFILE_TIMEOUT=d.String())
 	emitDur := func(d int64, kind string) {
